@@ -117,6 +117,9 @@ class Frame:
         self.locals = {}
         self.names = {}
         self.loops = 0
+        self.decl_seq = {}
+        self.decl_count = 0
+        self.unsigned = set()     # locals of an unsigned type: value >= 0 is a type invariant
 
 
 class Ref:
@@ -218,7 +221,12 @@ class Interp:
         if z3.is_bool(z):
             return z3.If(z, z3.IntVal(1), z3.IntVal(0))
         if z3.is_real(z):
-            # C++ conversion truncates toward zero
+            # C++ conversion truncates toward zero; of an integer-valued double it is the value itself
+            if getattr(self, "int_terms", False):
+                from .contracts import int_term
+                t = int_term(z, self.c)
+                if t is not None:
+                    return t
             return z3.If(z >= 0, z3.ToInt(z), -z3.ToInt(-z))
         return z
 
@@ -275,6 +283,10 @@ class Interp:
                 v = self.default_value(t)
             fr.locals[d["id"]] = v
             fr.names[d["id"]] = d.get("name")
+            fr.decl_count += 1
+            fr.decl_seq[d["id"]] = fr.decl_count      # the most recently declared variable of a name is the one in scope
+            if t in ("size_t", "std::size_t", "unsigned long", "unsigned int", "unsigned"):
+                fr.unsigned.add(d["id"])
 
     def s_IfStmt(self, n, fr):
         inner = n["inner"]
@@ -555,6 +567,8 @@ class Interp:
                 if loc[1] not in fr.locals:
                     continue
                 fr.locals[loc[1]] = self.havoc_value(fr.locals[loc[1]], "h_l", lenchg)
+                if loc[1] in fr.unsigned and z3.is_expr(fr.locals[loc[1]]):
+                    self.c.assume(fr.locals[loc[1]] >= 0)
             elif loc[0] == "f":
                 if fr.this is None or loc[1] not in fr.this.fields:
                     continue
@@ -916,6 +930,11 @@ class Interp:
             def set_(x):
                 cur = vref.get()
                 x = self.coerce(x, cur.kind)
+                lchk = getattr(self, "local_store_checks", {}).get((fr.fn, fname))
+                if lchk is not None:
+                    fact = lchk(self, fr, x, idx)
+                    if fact is not None:
+                        self.c.oblige("%s/%s/store-to-%s" % (self.prop, self.where(node, fr), fname), fact, "ensures")
                 chk = getattr(self, "store_checks", {}).get(fname)
                 if chk is not None and fr.this is not None:
                     fact = chk(self, fr.this, fr, x, idx)
@@ -955,6 +974,11 @@ class Interp:
         pf = getattr(self, "param_facts", {}).get(fname)
         if pf is not None:
             self.c.assume(pf(e))
+        lr = getattr(self, "local_read_facts", {}).get((fr.fn, fname))
+        if lr is not None:
+            fact = lr(self, fr, e, idx)
+            if fact is not None:
+                self.c.assume(fact)
         g = getattr(self, "read_facts", {}).get(fname)
         if g is not None and fr.this is not None:
             fact = g(self, fr.this, fr, e, idx)
@@ -964,10 +988,11 @@ class Interp:
     def local_by_name(self, fr, name):
         """value of the local variable / parameter called `name` in frame fr (contracts refer to program
         variables by name; a missing name makes the contract inapplicable, i.e. the run undecided)"""
+        best, seq = None, -1
         for did, v in fr.locals.items():
-            if fr.names.get(did) == name:
-                return v
-        return None
+            if fr.names.get(did) == name and fr.decl_seq.get(did, 0) > seq:
+                best, seq = v, fr.decl_seq.get(did, 0)
+        return best
 
     def field_name_of(self, n):
         n = self.strip(n)
@@ -1290,6 +1315,12 @@ class Interp:
         return cands[0]
 
     def call(self, fn, this, args, node, fr):
+        obs = getattr(self, "on_call", None)
+        if obs is not None:
+            obs(fn, this, args)
+        stub = getattr(self, "stubs", {}).get(fn.get("name")) if this is None else None
+        if stub is not None and self.depth > 0:
+            return stub(self, args, fr)
         self.depth += 1
         if self.depth > 40:
             raise Unsupported("call depth")
